@@ -111,17 +111,28 @@ ObservedOk(t) ==
       /\ \A j \in DOMAIN t.decls : \E k \in DOMAIN virt :
             virt[k].name = t.decls[j].name /\ virt[k].bits = 64 /\ virt[k].vexpr = t.decls[j].e
 
+\* Loading: the text parses (the generator only writes valid programs) and binds exactly when Bind says so (C11)
 Begin(r) ==
+  LET t == r.test
+      bind == BindResult(t.header, t.supplied, t.decls, CCols(t.prog, 1), Reads(t.prog, t.decls))
+      code == IF r.load = "panic" THEN "panic.load"
+              ELSE IF r.load = "parse" THEN "load"
+              ELSE IF r.load = "bind" /\ bind = "ok" THEN "load"
+              ELSE IF r.load = "ok" /\ bind # "ok" THEN "bind.accept"
+              ELSE IF r.load = "ok" /\ ~ObservedOk(t) THEN "signals"
+              ELSE "ok"
+  IN
   /\ run' = r.run
   /\ its' = <<>>
-  /\ IF ObservedOk(r.test)
-     THEN /\ ct' = Compile(r.test.header, r.test.observed, r.test.prog, r.test.decls, r.own_write)
+  /\ IF code = "ok" /\ r.load = "ok"
+     THEN /\ ct' = Compile(t.header, t.observed, t.prog, t.decls, r.own_write)
           /\ skip' = FALSE
           /\ diag' = diag
      ELSE /\ ct' = NoCt
           /\ skip' = TRUE
-          /\ PrintT(<<"DIAG", r.run, l, "signals">>)
-          /\ diag' = diag \cup {<<r.run, l, "signals">>}
+          /\ IF code = "ok" THEN diag' = diag
+             ELSE /\ PrintT(<<"DIAG", r.run, l, code>>)
+                  /\ diag' = diag \cup {<<r.run, l, code>>}
 
 \* the constructor
 TryIterLine(r) ==
@@ -155,17 +166,25 @@ CompareRow(e, c, ret, r) ==
       ELSE IF VarsSet(r.vars) # Vars(ret.it) THEN "vars"
       ELSE "ok"
 
+\* C02 on the log alone: the driver calls of one next() are accounted for by its item
+ProtoItem(c, r) ==
+  CASE r.item.k = "none" -> r.calls = <<>>
+    [] r.item.k = "row" -> ProtoRow(c, r)
+    [] r.item.k = "err" -> IF r.item.class = "driver" THEN Len(r.calls) = 1 ELSE Len(r.calls) <= 1
+    [] OTHER -> TRUE
+
 NextLine(r) ==
   LET e == its[r.it]
       rs == [mode |-> "log", tape |-> r.rng]
   IN
   \E c \in {NextCall(ct, e.it, rs, 0)} :      \* bound through a singleton set: evaluated exactly once
   IF r.item.k = "panic" THEN Flag("panic")
+  ELSE IF ~ProtoItem(ct, r) THEN Flag("proto.item")
   ELSE IF c.k = "none" THEN
        IF c.pos # Len(r.rng) THEN Flag("rng.tape")
-       ELSE IF r.calls # <<>> THEN Flag("proto.calls")
        ELSE IF r.item.k # "none" THEN Flag("item.kind")
-       ELSE /\ its' = [its EXCEPT ![r.it].live = FALSE, ![r.it].it = c.it]
+       ELSE \* the iterator stays usable: further next() calls must again return None without a call
+            /\ its' = [its EXCEPT ![r.it].it = c.it]
             /\ UNCHANGED <<run, ct, skip, diag>>
   ELSE IF c.k = "err" THEN
        IF c.err \in {"tape", "tape_range"} THEN Flag(IF c.err = "tape" THEN "rng.tape" ELSE "rng.range")
@@ -173,16 +192,14 @@ NextLine(r) ==
             THEN \* the properties allow an error item or a value here; stop following this run
                  /\ skip' = TRUE /\ UNCHANGED <<run, ct, its, diag>>
        ELSE IF c.pos # Len(r.rng) THEN Flag("rng.tape")
-       ELSE IF r.calls # <<>> THEN Flag("proto.calls")
-       ELSE IF r.item.k # "err" THEN Flag("item.kind")
+       ELSE IF r.item.k # "err" \/ r.calls # <<>> THEN Flag("item.kind")
        ELSE IF r.item.class # "runtime" THEN Flag("item.class")
        ELSE /\ its' = [its EXCEPT ![r.it].live = FALSE]
             /\ UNCHANGED <<run, ct, skip, diag>>
   ELSE \* a driver call is due
-       IF Len(r.calls) # 1 THEN Flag("proto.calls")
-       ELSE IF r.calls[1].kind # c.call.kind THEN Flag("proto.kind")
-       ELSE IF ~SameSV(r.calls[1].inputs, c.call.inputs) THEN
-            (IF r.item.k = "row" /\ ProtoRow(ct, r) THEN Flag("row.inputs") ELSE Flag("proto.inputs"))
+       IF r.calls = <<>> THEN Flag("item.kind")
+       ELSE IF r.calls[1].kind # c.call.kind THEN Flag("call.kind")
+       ELSE IF ~SameSV(r.calls[1].inputs, c.call.inputs) THEN Flag("row.inputs")
        ELSE
          \E ret \in {NextReturn(ct, c.it, c.row, r.answer, rs, c.pos)} :
          LET p == ret.item
@@ -201,12 +218,11 @@ NextLine(r) ==
                   ELSE /\ its' = [its EXCEPT ![r.it].live = FALSE]
                        /\ UNCHANGED <<run, ct, skip, diag>>
              ELSE \* a row
-                  IF ~ProtoRow(ct, r) THEN Flag("proto.row")
-                  ELSE LET code == CompareRow(e, c, ret, r)
-                       IN  IF code # "ok" THEN Flag(code)
-                           ELSE /\ its' = [its EXCEPT ![r.it].it = ret.it,
-                                                      ![r.it].lastIn = r.item.inputs]
-                                /\ UNCHANGED <<run, ct, skip, diag>>
+                  LET code == CompareRow(e, c, ret, r)
+                  IN  IF code # "ok" THEN Flag(code)
+                      ELSE /\ its' = [its EXCEPT ![r.it].it = ret.it,
+                                                 ![r.it].lastIn = r.item.inputs]
+                           /\ UNCHANGED <<run, ct, skip, diag>>
 
 Step ==
   /\ l <= Len(Rec)
